@@ -8,7 +8,7 @@ CLAIMS = {
  },
 }
 CLAIMS['C11'] = {
-  'text': "Function contracts on the verbatim bodies of cvm::memory_stream (has_remaining, expand_output_buffer, read/write_object<T>, read/write_vector<T> for 8-, 4- and 1-byte T) discharged by CBMC dfcc for every buffer length, position, state and length prefix: no uncaught exception, no read or write outside the data, damaged or truncated vectors set failbit, and lemma harnesses over the contracts show that what is written is read back byte for byte. Crash consistency of file replacement and text-state parsing are not decided here.",
+  'text': "Function contracts on the verbatim bodies of cvm::memory_stream (has_remaining, expand_output_buffer, read/write_object<T>, read/write_vector<T> for 8-, 4- and 1-byte T) discharged by CBMC dfcc for every buffer length, position, state and length prefix: no uncaught exception, no read or write outside the data, damaged or truncated vectors set failbit, and lemma harnesses over the contracts show that what is written is read back byte for byte. For the multiple-replica metadynamics state file, colvarbias_meta::write_replica_state_file is under contract: the temporary file is closed before it is renamed over the live file. Text-state parsing and backup_file are not decided here.",
   'note': "Trusted: CBMC C++ front end + stub std::vector (growth beyond the frame's capacity modelled as fresh allocation); memcpy by assumed contract (specs/common/memcpy_contract.h); class template instead of member templates. n/d: std::string/colvarvalue specialisations, backup_file/rename ordering, text state.",
   'design_ref': '§4 C11',
 }
@@ -18,7 +18,7 @@ CLAIMS['C06'] = {
   'design_ref': '§4 C06',
 }
 CLAIMS['C13'] = {
-  'text': "Contracts on the verbatim bodies of colvardeps::disable and colvardeps::decr_ref_count discharged by CBMC dfcc: a capability that is off or still referenced by more than one requirer is never switched off (error, no state change); switching one off releases each self prerequisite and each remembered alternate exactly once, forgets the alternates, releases children's prerequisites once per (child, requirement) only while the object is active, and a reference count never goes below zero.",
+  'text': "Contracts on the verbatim bodies of colvardeps::disable and colvardeps::decr_ref_count discharged by CBMC dfcc: a capability that is off or still referenced by more than one requirer is never switched off (error, no state change); switching one off releases each self prerequisite and each remembered alternate exactly once, forgets the alternates, releases children's prerequisites once per (child, requirement) only while the object is active, and a reference count never goes below zero; cvm::atom_group's destructor destroys an allocated fitting group (releasing its atoms) whether or not the feature was ever enabled.",
   'note': "Bounded stand-in for disable (4 features, <=2 entries per list, <=2 children; loops unwound); children and the recursive callees are counting stubs. n/d: enable(), destructors, atom release, 'values as if the deleted objects never existed'.",
   'design_ref': '§4 C13',
 }
@@ -57,7 +57,7 @@ CLAIMS['C01'] = {
   'note': "Component gradients (calc_gradients of ~40 cvc classes), fit gradients, metadynamics/ABMD kernels and atom_group::apply_colvar_force are n/d: calculus over sqrt/acos/eigen-decompositions is outside any contract language available here.",
   'design_ref': '§4 C01'}
 CLAIMS['C20'] = {
-  'text': "Contracts on the verbatim bodies of the scripting interface's argument helpers (cmd_arg_shift, get_cmd_arg, check_cmd_nargs for module-, colvar- and bias-level commands, any argument count): an argument is objv[shift+i] exactly when that many words were passed, NULL otherwise, objv is never indexed outside [0, objc); an accepted argument count implies every mandatory argument is present (lemma). Plus colvar::collect_cvc_gradients: the gradients a script query returns come from exactly the enabled components, once each.",
+  'text': "Contracts on the verbatim bodies of the scripting interface's argument helpers (cmd_arg_shift, get_cmd_arg, check_cmd_nargs for module-, colvar- and bias-level commands, any argument count): an argument is objv[shift+i] exactly when that many words were passed, NULL otherwise, objv is never indexed outside [0, objc); an accepted argument count implies every mandatory argument is present (lemma). colvarproxy::parse_module_config hands every queued configuration to the module exactly once and removes it from the queue even when it was rejected (bounded: 2 entries). Plus colvar::collect_cvc_gradients: the gradients a script query returns come from exactly the enabled components, once each.",
   'note': "colvarscript::run dispatch, the per-command bodies, the proxy's config queue and 'script numbers equal engine numbers' are n/d.",
   'design_ref': '§4 C20'}
 CLAIMS['C10'] = {
@@ -80,7 +80,10 @@ CLAIMS['C18'] = {
   'text': "Contracts on the verbatim bodies of colvar::cvc::dist2, dist2_lgrad, dist2_rgrad and wrap with symbolic reals: value and gradient use the same minimum-image displacement d = (x1-x2) - floor((x1-x2)/P + 1/2) P for any number of periods (gradient = 2d, distance = d*d), non-periodic components use the plain difference, and wrap maps x to x - floor((x-c)/P + 1/2) P around the wrap centre.",
   'note': "Structural (uninterpreted arithmetic): that the formula selects the nearest image numerically is real analysis and not decided. colvarvalue's vector/quaternion metrics and interpolation are n/d.",
   'design_ref': '§4 C18'}
+CLAIMS['C02'] = {
+  'text': "One slice only: a contract on the verbatim body of NR_Jacobi::eigsrt (IEEE doubles, comparisons only): the four eigenvalues come out in descending order, are a rearrangement of the input, and every eigenvector column travels with its eigenvalue -- so the quaternion taken from column 0 for the optimal rotation belongs to the LARGEST eigenvalue (the least-squares optimum rather than another stationary rotation).",
+  'note': "Everything else of C02 is not decided: values against an independent evaluation, invariance under rigid motion / lattice translations / atom reordering, the Jacobi diagonalisation itself and the sign convention of the quaternion are real-analysis statements over long floating-point chains outside CBMC's reach.",
+  'design_ref': '§4 C02'}
 NOT_APPLICABLE = {
- 'C02': "values against an independent evaluation, invariance under rigid motion and optimality of the fitted rotation are real-analysis statements over long floating-point chains (sqrt, acos, Jacobi eigen-solver); no contract within CBMC's reach expresses them (DESIGN.md §4 C02)",
  'C12': "quantifies over thread schedules; sequential contract verification (CBMC dfcc) cannot express it and the C++ front end has no OpenMP (DESIGN.md §4 C12)",
 }
